@@ -53,6 +53,11 @@ def gen_dense(rng, m=None, n=None, tc=None):
     return {'k': 'dense', 'm': m, 'n': n, 'tc': tc, 'v': [mkval(tc, rng) for _ in range(m * n)]}
 
 
+def gen_dense1(rng, v, tc):
+    """a 1x1 matrix literal with an exactly invertible value"""
+    return {'k': 'dense', 'm': 1, 'n': 1, 'tc': tc, 'v': [[float(v), 0.0] if tc == 'z' else (int(v) if tc == 'i' else float(v))]}
+
+
 def lit(x):
     """literal number from JSON form"""
     return complex(x[0], x[1]) if isinstance(x, list) else x
@@ -112,6 +117,14 @@ def gen_op(rng, w):
                 return ['iop', t, opn, gen_dense(rng, 1, 1, rng.choice([tc, 'i', 'd']))]
             return ['iop', t, opn, {'k': 'num', 'v': rng.choice([1, -1, 2, 3, -3, 2.0, -2.0, 0.5, 4, 2.5, 0, [0.0, 2.0]])}]
         if opn == '/=':
+            if rr < 0.2:
+                return ['iop', t, opn, gen_dense1(rng, rng.choice([2, -2, 4, 1]), rng.choice([tc, 'i', 'd', 'z']))]     # A /= c, c a 1x1 matrix
+            if rr < 0.27:
+                return ['iop', t, opn, {'k': 'num', 'v': rng.choice([0, 0.0, [0.0, 0.0]])}]                            # division by zero: refused, A untouched
+            if rr < 0.32:
+                big_ = [k for k in names if w.o(k)['M'].size != (1, 1)]
+                if big_:
+                    return ['iop', t, opn, {'k': 'ref', 'name': rng.choice(big_)}]                                     # a divisor that is no scalar
             return ['iop', t, opn, {'k': 'num', 'v': rng.choice([1, -1, 2, 2.0, -2.0, 0.5, 4.0, [0.0, 2.0]])}]
         if rr < 0.4:
             return ['iop', t, opn, {'k': 'num', 'v': gen_num(rng, rng.choice([tc, tc, 'i', 'd', 'z']))}]
@@ -139,7 +152,8 @@ def gen_op(rng, w):
     if r < 0.93:
         return gen_derive(rng, w, t)
     if r < 0.97:
-        return ['query', t, rng.choice(['sum', 'len', 'bool', 'in', 'iter', 'max', 'min']), rng.randint(-3, 3)]
+        return ['query', t, rng.choice(['sum', 'len', 'bool', 'in', 'iter', 'max', 'min', 'bmax', 'bmin', 'sumstart', 'inf']),
+                rng.choice([rng.randint(-3, 3), rng.randint(-3, 3), 2.0, 2.5, -1.0])]
     if len(names) > 2:
         return ['del', rng.choice(names)]
     return gen_derive(rng, w, t)
@@ -307,6 +321,14 @@ def gen_derive(rng, w, t):
         other = rng.choice(cands) if cands and rng.random() < 0.9 else rng.choice(names)
         return ['derive', nm, 'mul', t, other]
     if kind == 'div':
+        r_ = rng.random()
+        if r_ < 0.2:
+            return ['derive', nm, 'div', t, gen_dense1(rng, rng.choice([2, -2, 4, 1]), rng.choice([tc, 'i', 'd', 'z']))]
+        if r_ < 0.27:
+            return ['derive', nm, 'div', t, {'k': 'num', 'v': rng.choice([0, 0.0, [0.0, 0.0]])}]
+        big_ = [k for k in names if w.o(k)['M'].size != (1, 1)]
+        if r_ < 0.32 and big_:
+            return ['derive', nm, 'div', t, {'k': 'ref', 'name': rng.choice(big_)}]
         return ['derive', nm, 'div', t, {'k': 'num', 'v': rng.choice([1, -1, 2, 2.0, -2.0, 0.5, 4.0, [0.0, 2.0], [0.0, -1.0]])}]
     if kind in ('addnum', 'rsubnum', 'smul', 'raddnum', 'mulnum', 'subnum'):
         return ['derive', nm, kind, t, {'k': 'num', 'v': mkval(rng.choice([tc, 'i', 'd', 'z']), rng)}]
@@ -537,6 +559,16 @@ def apply(op, w, stats):
             fr, fm = (lambda: arg in X), (lambda: any(x == arg for x in M.v))
         elif q == 'iter':
             fr, fm = (lambda: list(iter(X))), (lambda: list(M.v))
+        elif q in ('bmax', 'bmin'):
+            import builtins
+            if M.tc == 'z' or not M.v:
+                return
+            f_ = builtins.max if q == 'bmax' else builtins.min
+            fr, fm = (lambda: f_(X)), (lambda: f_(M.v))
+        elif q == 'sumstart':
+            fr, fm = (lambda: sum(X, arg)), (lambda: sum(M.v, arg))
+        elif q == 'inf':
+            fr, fm = (lambda: float(arg) in X), (lambda: any(x == float(arg) for x in M.v))
         elif q == 'max':
             if M.tc == 'z' or not M.v:
                 return
@@ -585,6 +617,9 @@ def apply(op, w, stats):
                 fr, fm = (lambda: X * Y), (lambda: MDL.mul(M, N))
             else:
                 fr, fm = (lambda: cmul(X, Y)), (lambda: MDL.emul(M, N))
+        elif dk == 'div' and op[4]['k'] != 'num':
+            Y, N = operand(w, op[4])
+            fr, fm = (lambda: X / Y), (lambda: MDL.div(M, N))
         elif dk in ('div', 'addnum', 'rsubnum', 'smul', 'raddnum', 'mulnum', 'subnum'):
             v = lit(op[4]['v'])
             if dk == 'raddnum':
